@@ -313,7 +313,7 @@ fn build_evaluator(name: Name, function: Value, knowledge_requirements: &[String
           requirements.iter().for_each(|id| {
             //TODO refactor: call either business knowledge model or decision service, not both!
             business_knowledge_model_evaluator.evaluate(id, input_data, model_evaluator, output_data);
-            decision_service_evaluator.evaluate(id, input_data, model_evaluator, output_data);
+            decision_service_evaluator.evaluate_as_function_definition(id, input_data, output_data);
           });
           output_data.set_entry(&name, function.clone())
         }
